@@ -79,22 +79,26 @@ MkJson(objs, gaps) == MkJsonCut(objs, gaps, 0)
 Contents(l) == UNION {[1..k -> Toks] : k \in 0..l}
 O(c, loose) == [chars |-> ObjChars(c, loose), loose |-> loose]
 ON(c) == [chars |-> ObjNested(c), loose |-> FALSE]
+OE == [chars |-> <<"{", "}">>, loose |-> FALSE]          \* the empty object: a document like any other (its Map is empty)
 JGaps == {<<>>, <<"\n">>}
 \* one object with every content of <= 2 tokens, tight and loose, with all leading/trailing gap choices
 cJsonOne == {MkJson(<<O(c, lo)>>, <<g1, g2>>) : c \in Contents(2), lo \in BOOLEAN, g1 \in JGaps, g2 \in JGaps}
 \* two objects: contents of <= 1 token each; the interesting ones end in an escaped backslash or hold braces
 cJsonTwo == {MkJson(<<O(c1, FALSE), O(c2, FALSE)>>, <<<<>>, g, <<>>>>) : c1 \in Contents(1) \cup {<<"a", "eb">>, <<"eb", "eq">>, <<"rb", "eb">>}, c2 \in {<<>>, <<"lb">>, <<"eb">>}, g \in JGaps}
              \cup {MkJson(<<ON(c1), O(c2, TRUE)>>, <<<<"\n">>, <<>>, <<"\n">>>>) : c1 \in {<<"eb">>, <<"rb">>, <<"eq", "rb">>}, c2 \in {<<"a">>, <<"eb">>}}
+\* streams in which an empty object is NOT the last document
+cJsonEmpty == {MkJson(<<OE, O(<<"a">>, FALSE)>>, <<<<>>, g, <<>>>>) : g \in JGaps}
+              \cup {MkJson(<<O(<<"a">>, FALSE), OE, O(<<"lb">>, FALSE)>>, <<<<>>, <<"\n">>, <<>>, <<"\n">>>>)}
 \* three-token contents, tight form, no gaps: e.g. an escaped backslash, an escaped quote, then a brace
 cJsonThree == {MkJson(<<O(c, FALSE)>>, <<<<>>, <<>>>>) : c \in [1..3 -> Toks]}
-cJsonQuick == {p \in cJsonOne : p.total <= 13} \cup {p \in cJsonTwo : p.total <= 22 /\ p.id.gl[2] = 0}
+cJsonQuick == {p \in cJsonOne : p.total <= 13} \cup {p \in cJsonTwo : p.total <= 22 /\ p.id.gl[2] = 0} \cup {p \in cJsonEmpty : p.total <= 12}
               \cup {p \in cJsonThree : \E i \in 1..(p.total - 1) : p.chars[i] = "\\" /\ p.chars[i+1] = "\\"}
 cJsonHandler == {p \in cJsonTwo : p.total <= 20 /\ p.id.gl[2] = 1}
 JsonCuts(objs, gaps) == {MkJsonCut(objs, gaps, c) : c \in 1..(Len(gaps[1]) + Len(objs[1].chars) + Len(gaps[2]) + Len(objs[2].chars) + Len(gaps[3]))}
 cJsonCut == JsonCuts(<<O(<<"a">>, FALSE), O(<<"eb">>, FALSE)>>, <<<<>>, <<"\n">>, <<>>>>)
             \cup JsonCuts(<<O(<<"rb">>, TRUE), ON(<<"eq">>)>>, <<<<"\n">>, <<>>, <<"\n">>>>)
-cFileProfiles == cXmlCutThorough \cup cJsonCut \cup cXmlThorough \cup {p \in cJsonTwo : p.total <= 22}
-cJsonThorough == cJsonOne \cup cJsonTwo \cup cJsonThree
+cFileProfiles == cXmlCutThorough \cup cJsonCut \cup cXmlThorough \cup {p \in cJsonTwo : p.total <= 22} \cup cJsonEmpty
+cJsonThorough == cJsonOne \cup cJsonTwo \cup cJsonThree \cup cJsonEmpty
 
 \* the profiles alone (files: the schedule is the operating system's)
 ProfSpec == Init /\ [][UNCHANGED vars]_vars
